@@ -449,9 +449,52 @@ class Engine:
     def ev(self, node, st):
         """Evaluate expression; returns list of (state, value).  Exceptional paths go to the sink."""
         m = getattr(self, 'ev_' + node.__class__.__name__, None)
-        if m is None:
-            raise Unsupported('expression %s at line %s' % (node.__class__.__name__, getattr(node, 'lineno', '?')))
-        return m(node, st)
+        eff = getattr(self, 'effect', None)
+        if eff is None or self.pure:
+            if m is None:
+                raise Unsupported('expression %s at line %s' % (node.__class__.__name__, getattr(node, 'lineno', '?')))
+            return m(node, st)
+        # exception-effect mode: whatever the model cannot track is an untracked value whose computation may raise
+        if isinstance(node, (ast.Name, ast.Constant)):
+            return m(node, st)
+        if isinstance(node, ast.Call) and ast.unparse(node.func) in eff.no_raise_calls and not self._tracked_call(node):
+            return self.untracked(node, st, may_raise=False)
+        try:
+            if m is None:
+                raise Unsupported('expression')
+            rs = m(node, st)
+        except ContractError:
+            raise
+        except (Unsupported, AttributeError, TypeError, KeyError, IndexError, ValueError, z3.Z3Exception, RecursionError):
+            return self.untracked(node, st)
+        for s, v in rs:
+            if isinstance(v, self.Opaque) and not isinstance(node, (ast.Compare, ast.BoolOp, ast.IfExp)):
+                self.maybe_raise(s, node)
+        return rs
+
+    def _tracked_call(self, node):
+        return ast.unparse(node.func) in self.builtins
+
+    def maybe_raise(self, st, node):
+        eff = getattr(self, 'effect', None)
+        if eff is None or self.pure or st.dead:
+            return
+        if isinstance(node, ast.Call) and ast.unparse(node.func) in eff.no_raise_calls:
+            self.assumptions_used.add('%s: call of %s is assumed to raise nothing' % (eff.func, ast.unparse(node.func)))
+            return
+        self.throw(st.copy(), 'Exception', node)
+
+    def untracked(self, node, st, may_raise=True):
+        """Result of an expression the model does not track: may raise Exception (unless whitelisted), and every mutable
+        local it mentions is untracked afterwards (an unknown callee may have changed it)."""
+        if may_raise:
+            self.maybe_raise(st, node)
+        else:
+            self.assumptions_used.add('%s: call of %s is assumed to raise nothing' % (self.effect.func, ast.unparse(node.func)))
+        for n in ast.walk(node):
+            if isinstance(n, ast.Name) and n.id in st.env and isinstance(st.env[n.id], (View, Ref, DictVal, SetVal)):
+                st.env[n.id] = self.Opaque()
+        return [(st, self.Opaque())]
 
     def ev_seq(self, nodes, st):
         """Evaluate several expressions left to right; list of (state, [values])."""
@@ -508,7 +551,8 @@ class Engine:
         if name in mod.imports:
             imp = mod.imports[name]
             if imp[0] == 'module':
-                return ModuleVal(imp[1] if name == imp[1].split('.')[0] and '.' not in imp[1] else imp[1])
+                # `import a.b.c` binds the top package `a`; `import a.b.c as x` binds the module itself
+                return ModuleVal(name if name == imp[1].split('.')[0] else imp[1])
             rp = source.module_relpath(imp[1])
             if rp is not None:
                 m2 = source.load(rp)
@@ -583,7 +627,23 @@ class Engine:
         return out
 
     def ev_JoinedStr(self, node, st):
-        # f-strings are only used for messages: an opaque string
+        # f'{name}suffix' over string-valued names (no format spec / conversion): exact concatenation.
+        # Every other f-string (messages) is an opaque string.
+        parts = []
+        for v in node.values:
+            if isinstance(v, ast.Constant) and isinstance(v.value, str):
+                parts.append(v.value)
+            elif isinstance(v, ast.FormattedValue) and v.format_spec is None and v.conversion == -1 and isinstance(v.value, ast.Name) \
+                    and v.value.id in st.env and (isinstance(st.env[v.value.id], str) or (is_z3(st.env[v.value.id]) and z3.is_string(st.env[v.value.id]))):
+                parts.append(st.env[v.value.id])
+            else:
+                parts = None
+                break
+        if parts:
+            if all(isinstance(x, str) for x in parts):
+                return [(st, ''.join(parts))]
+            terms = [z3.StringVal(x) if isinstance(x, str) else x for x in parts if not (isinstance(x, str) and x == '')]
+            return [(st, terms[0] if len(terms) == 1 else z3.Concat(*terms))]
         return [(st, z3.String(uid('fstr')))]
 
     def ev_UnaryOp(self, node, st):
@@ -674,6 +734,8 @@ class Engine:
         return out
 
     def compare(self, op, a, b, st, node):
+        if isinstance(a, self.Opaque) or isinstance(b, self.Opaque):
+            return z3.Bool(uid('untracked_cmp'))      # nothing is known about a comparison with an untracked value
         if isinstance(op, (ast.Is, ast.IsNot)):
             if a is None or b is None or isinstance(a, Opt) or isinstance(b, Opt):
                 r = v_eq(a, b) if (a is None or b is None) else None
@@ -1500,6 +1562,8 @@ class Engine:
             return self.inline_call(fn, args, kw, st, node, merge=bool(self.pure))
         # a repository function without a contract: executed from its real body when it is loop-free (small helpers,
         # including helpers extracted by a refactoring); anything larger must be given a contract
+        if getattr(self, 'effect', None) is not None and not self.pure:
+            raise Unsupported('call of %s:%s which has no contract (exception-effect mode: untracked)' % (fn.mod.relpath, fn.qual))
         if not any(isinstance(n, (ast.While, ast.For, ast.AsyncFor)) for n in ast.walk(fn.node)) \
                 and sum(1 for n in ast.walk(fn.node) if isinstance(n, ast.stmt)) <= 40:
             self.auto_inlined = getattr(self, 'auto_inlined', set())
@@ -1579,14 +1643,15 @@ class Engine:
             res = []
             for s2, oc in outs:
                 if oc[0] == 'raise':
-                    s2.env = saved_env
+                    s2.env = dict(saved_env)
                     s2.out = saved_out
                     self.sinks[-1].append((s2, oc[1], oc[2] if len(oc) > 2 else 0))
                     continue
                 v = oc[1] if oc[0] == 'return' else None
                 if gen:
                     v = s2.out
-                s2.env = saved_env
+                # every path of the callee continues with its OWN copy of the caller's locals
+                s2.env = saved_env if not res else dict(saved_env)
                 s2.out = saved_out
                 res.append((s2, v))
             return res
@@ -1822,11 +1887,29 @@ class Engine:
     def exec_stmt(self, stmt, st):
         sink = []
         self.sinks.append(sink)
+        eff = getattr(self, 'effect', None)
+        backup = st.copy() if eff is not None and not self.pure and isinstance(stmt, (ast.For, ast.While, ast.With, ast.Try)) else None
         try:
             m = getattr(self, 'st_' + stmt.__class__.__name__, None)
             if m is None:
                 raise Unsupported('statement %s at line %s' % (stmt.__class__.__name__, stmt.lineno))
-            outs = m(stmt, st)
+            try:
+                outs = m(stmt, st)
+            except (Unsupported, ContractError) as e:
+                # exception-effect mode: a compound statement the model cannot follow and that contains no return /
+                # break / continue / yield is abstracted: it may raise Exception, and afterwards every name it assigns
+                # and every mutable local it mentions is untracked
+                if backup is None or any(isinstance(n, (ast.Return, ast.Break, ast.Continue, ast.Yield, ast.YieldFrom)) for n in ast.walk(stmt)) \
+                        or (isinstance(e, ContractError) and 'no invariant' not in str(e)):
+                    raise
+                del sink[:]
+                s0 = backup
+                self.throw(s0.copy(), 'Exception', stmt)
+                for n in ast.walk(stmt):
+                    if isinstance(n, ast.Name) and (isinstance(n.ctx, ast.Store) or isinstance(s0.env.get(n.id), (View, Ref, DictVal, SetVal))):
+                        s0.env[n.id] = self.Opaque()
+                self.assumptions_used.add('%s: statement at line %d abstracted (may raise Exception, assigned names untracked)' % (eff.func, stmt.lineno))
+                outs = [(s0, ('normal',))]
         finally:
             self.sinks.pop()
         res = list(outs)
@@ -1974,6 +2057,15 @@ class Engine:
                     else:
                         names = [ast.unparse(h.type)]
                     names = [n if n in BUILTIN_EXC_BASES else n.split('.')[-1] for n in names]
+                    if getattr(self, 'effect', None) is not None and oc[1].cls == 'Exception' and not any(self.is_subclass('Exception', n) for n in names) \
+                            and any(self.is_subclass(n, 'Exception') for n in names):
+                        # an untracked operation raised "some Exception": a handler for a subclass may or may not take it
+                        s_h = s.copy()
+                        if h.name:
+                            s_h.env[h.name] = oc[1]
+                        s_h.cur_exc = oc[1]
+                        res += self.exec_block(h.body, s_h)
+                        continue
                     if any(self.is_subclass(oc[1].cls, n) for n in names):
                         handled = True
                         if h.name:
@@ -2001,6 +2093,17 @@ class Engine:
         item = stmt.items[0]
         out = []
         for s, cm in self.ev(item.context_expr, st):
+            if isinstance(cm, self.Opaque) and getattr(self, 'effect', None) is not None:
+                # untracked context manager: __enter__ / __exit__ may raise; assumed not to suppress exceptions
+                self.maybe_raise(s, item.context_expr)
+                ss = self.assign(item.optional_vars, self.Opaque(), s, stmt) if item.optional_vars is not None else [s]
+                self.assumptions_used.add('%s: context managers the model does not track do not suppress exceptions' % self.effect.func)
+                for s3 in ss:
+                    for s4, oc in self.exec_block(stmt.body, s3):
+                        if oc[0] != 'raise':
+                            self.maybe_raise(s4, item.context_expr)
+                        out.append((s4, oc))
+                continue
             if not isinstance(cm, Ref):
                 raise Unsupported('with on %r' % (cm,))
             ent = self.find_method(cm.cls, '__enter__')
@@ -2287,9 +2390,9 @@ class Engine:
         return results
 
     def st_For(self, stmt, st):
-        if stmt.orelse:
-            raise Unsupported('for-else')
         spec = self.loop_spec(stmt)
+        if stmt.orelse and not (spec is None or spec[1].unroll):
+            raise Unsupported('for-else on a loop cut at an invariant')
         out = []
         for s, itv in self.ev(stmt.iter, st):
             seq = self.to_iter_view(itv, s, stmt)
@@ -2312,7 +2415,12 @@ class Engine:
                                 else:
                                     out.append((s4, oc))
                     pending = nxt
-                out += [(s2, ('normal',)) for s2 in pending]
+                if stmt.orelse:
+                    # for ... else: the else suite runs when the loop was not left by break
+                    for s2 in pending:
+                        out += self.exec_block(stmt.orelse, s2)
+                else:
+                    out += [(s2, ('normal',)) for s2 in pending]
                 continue
             idx, sp = spec
             kname = sp.index or '_k%d' % idx
@@ -2354,6 +2462,7 @@ class Engine:
         fr = Frame(mod, c.func, c)
         self.frames.append(fr)
         self.sinks.append([])
+        self.effect = c if getattr(c, 'unknown_calls', None) else None
         try:
             st = State()
             facts = []
@@ -2365,6 +2474,9 @@ class Engine:
                 if p not in c.params:
                     raise ContractError('parameter %s of %s has no kind in the contract' % (p, c.func))
             for p, k in list(c.params.items()) + list(c.ghost.items()):
+                if isinstance(k, KOpaque):
+                    st.env[p] = self.Opaque()
+                    continue
                 if not isinstance(k, Kind):
                     st.env[p] = DictVal(dict(k)) if isinstance(k, dict) else k      # a concrete value given by the contract (scope restriction)
                     continue
@@ -2465,6 +2577,7 @@ class Engine:
             for s, e, line in self.sinks[-1]:
                 self.check_raise(c, s, ('raise', e, line), fr)
         finally:
+            self.effect = None
             self.sinks.pop()
             self.frames.pop()
 
